@@ -96,7 +96,8 @@ def main():
     if args.replay:
         r = json.loads(Path(args.replay).read_text())
         try:
-            msg = core.replay_isolated(module, r["subcheck"], r["case"])
+            msg = core.replay_isolated(module, r["subcheck"], r["case"],
+                                       r.get("history", ()))
         except Exception as e:
             print(f"HARNESS-ERROR replay: {e!r}", file=sys.stderr)
             return 2
